@@ -2,7 +2,7 @@
 # sweep.sh "<seeds>" [properties...] : run the quick checks with several seeds on the current /repo tree (false-alarm hunt)
 seeds="$1"; shift
 props="${*:-C08 C09 C10 C11 C13 C15 C17 C18}"
-cd /verif; mkdir -p build/logs
+cd /verif; mkdir -p build/logs; export VERIF_EVIDENCE_DIR=/verif/build/tmp/evidence-sweep
 for s in $seeds; do
   for p in $props; do
     ./check "$p" --tier quick --seed "$s" > "build/logs/sweep_${p}_$s.log" 2>&1
